@@ -220,6 +220,7 @@ func runReentrant(rc *RunCtx) {
 		id   string
 		flag bool
 		d    time.Duration
+		cut  int // Sends: the caller's context is cancelled after this many scheduling steps of a canceller task (0: never)
 	}
 	n := 2 + tp.Choose(8, "nsteps")
 	var prog []step
@@ -230,6 +231,9 @@ func runReentrant(rc *RunCtx) {
 		switch tp.Choose(12, "step") {
 		case 0, 1, 2, 3:
 			st = step{kind: "send-gateable", id: []string{"a", "b", "c"}[tp.Choose(3, "gid")], flag: tp.Choose(5, "flush") == 0}
+			if c := tp.Choose(12, "cancelled-send"); c >= 6 {
+				st.cut = 1 + (c-6)*3 // the caller gives up while the gate withholds (drops) or flushes the event
+			}
 		case 4:
 			st = step{kind: "send-plain"}
 			if tp.Choose(2, "loop-gateable") == 0 {
@@ -250,7 +254,7 @@ func runReentrant(rc *RunCtx) {
 			tp.Choose(1, "pad")
 		}
 		prog = append(prog, st)
-		desc.Program = append(desc.Program, fmt.Sprintf("%s %s %v %v", st.kind, st.id, st.flag, st.d))
+		desc.Program = append(desc.Program, fmt.Sprintf("%s %s %v %v cancel-after=%d", st.kind, st.id, st.flag, st.d, st.cut))
 	}
 	nWriters := tp.Choose(4, "nwriters")
 	desc.Writers = nWriters
@@ -264,7 +268,20 @@ func runReentrant(rc *RunCtx) {
 			lastOp = st.kind
 			switch st.kind {
 			case "send-gateable":
-				broker.Send(ctx, "ta", &gated.Payload{ID: st.id, Flush: st.flag, Detail: map[string]interface{}{"k": "v"}})
+				sctx := ctx
+				if st.cut > 0 {
+					c, cancel := context.WithCancel(ctx)
+					sctx = c
+					k := st.cut
+					sim.Spawn("canceller", func() {
+						for i := 0; i < k; i++ {
+							simrt.Yield("cancel:wait")
+						}
+						cancel()
+					})
+					simrt.Probe("reentry.send-cancelled")
+				}
+				broker.Send(sctx, "ta", &gated.Payload{ID: st.id, Flush: st.flag, Detail: map[string]interface{}{"k": "v"}})
 				pending++
 			case "send-loop-gateable":
 				broker.Send(ctx, "ta", &loopPayload{ID: st.id, Flush: st.flag})
